@@ -34,14 +34,16 @@ func checkC08(c *Ctx) {
 		return
 	}
 	fl := NewFlow(p, ort)
-	addCalls := callsIn(ort, false, func(cc *ssa.CallCommon) bool { return calleeIs(cc, add) })
+	// the calls of add made by the handler, directly or in private helpers of its package (facts in the handler's terms)
+	addCalls := deepSites(fl, func(cc *ssa.CallCommon) bool { return calleeIs(cc, add) }, 0)
 	if len(addCalls) == 0 {
 		c.Unresolved("C08.1", "OnRemoteTimeout", "no call of timeoutCollector.add")
 	}
 	c.whoMayCall("C08.1", add, "timeoutCollector.add", "(*hs/protocol/synchronizer.Synchronizer).OnRemoteTimeout")
-	for _, s := range addCalls {
-		facts := fl.At(s)
-		arg := fl.K.Key(s.Common().Args[1])
+	for _, ds := range addCalls {
+		s := ds.Site
+		facts := ds.Facts
+		arg := ds.Args[1]
 		// C08.1 view signature verified over the message's own view
 		ok := arg == "p1" && errNilOf(facts, func(k string) bool {
 			return strings.HasPrefix(k, kBaseVer) && strings.Contains(k, ", p1."+kTOMsg+"ViewSignature, (hs.View).ToBytes(p1."+kTOMsg+"View)")
@@ -55,7 +57,11 @@ func checkC08(c *Ctx) {
 			"add only when the participants of timeout.ViewSignature are exactly {timeout.ID}",
 			"the collector de-duplicates by the transport identity (timeout.ID) while certificates combine by signature identity; nothing ties the two: a replayed signature of another replica is collected and makes Combine fail for the whole view")
 		// C08.8 message signature verified when aggregate QCs are enabled
-		w := c08UnverifiedMsgSigPath(fl, ort, s)
+		pathTarget := s
+		if ds.Via != nil {
+			pathTarget = ds.Via // evaluated up to the handler's call of the helper that contains the add
+		}
+		w := c08UnverifiedMsgSigPath(fl, ort, pathTarget)
 		c.Check(w == "", "C08.8", "OnRemoteTimeout: MsgSignature verified before it can be combined", p.Pos(s.Pos()),
 			"every path to add on which aggregate QCs may be enabled passes auth.Verify(timeout.MsgSignature, timeout.ToBytes()) == nil",
 			"path to add with aggregate QCs possibly enabled and timeout.MsgSignature never verified ("+w+"): CreateAggregateQC combines it unverified, one bad or absent message signature voids TC and AggQC together")
